@@ -150,6 +150,34 @@ def line_paths_and_near_misses(ck, cases):
                         what='%r, point %r: radialrange min (%r, %r), closest_point_in_path %r; the distance is %r at t = %r' % (ln, z, dmin, tmin, cp, dexp, texp),
                         case={'a': str(a), 'b': str(b), 'z': str(z)}, expected=[dexp, texp], observed=repr((dmin, tmin)), driver='line')
 
+    # (c) a small curve seen from far away: dmin / dmax are the extremes over the curve (an interior extreme beats the end points by less than 1e-5 of the distance),
+    #     at the parameters where they are attained; the same through a path (segment index)
+    import math
+    curves = [sp.QuadraticBezier(0j, 1.5 + 2j, 3 + 0j), sp.CubicBezier(0j, 1 + 2j, 2 + 2j, 3 + 0j), sp.CubicBezier(0j, 1 - 1.5j, 2 + 1.5j, 3 + 0.5j), sp.QuadraticBezier(0j, 2 + 0.3j, 1 + 3j)]
+    for cv in curves:
+        for dist in (40.0, 5e3, 5e5, 3e7):
+            for ang in (90, -90, 35, 200):
+                z = cv.point(0.5) + dist * complex(math.cos(math.radians(ang)), math.sin(math.radians(ang)))
+                ck.case(fp=('far-query', repr(cv), dist, ang), nontrivial=True)
+                ts = [j_ / 4096.0 for j_ in range(4097)]
+                ds = [abs(cv.point(t_) - z) for t_ in ts]
+                emin, emax = min(ds), max(ds)
+                try:
+                    (dmin, tmin), (dmax, tmax) = cv.radialrange(z)
+                    pth = sp.Path(sp.Line(cv.start - 2 - 1j, cv.start), cv)
+                    cp_, fp_ = sp.closest_point_in_path(z, pth), sp.farthest_point_in_path(z, pth)
+                    tol_ = 1e-6 + 4e-15 * dist * 64
+                    ok = dmin <= emin + tol_ and dmax >= emax - tol_ and abs(abs(cv.point(tmin) - z) - dmin) <= tol_ and abs(abs(cv.point(tmax) - z) - dmax) <= tol_ and \
+                        abs(abs(pth[cp_[2]].point(cp_[1]) - z) - cp_[0]) <= tol_ and abs(abs(pth[fp_[2]].point(fp_[1]) - z) - fp_[0]) <= tol_ and \
+                        cp_[0] <= min(emin, abs(pth[0].start - z)) + tol_ and fp_[0] >= max(emax, abs(pth[0].start - z)) - tol_
+                    got = ((dmin, tmin), (dmax, tmax), cp_, fp_)
+                except Exception as e:      # noqa
+                    ok, got = False, repr(e)
+                if not ok:
+                    ck.disagree(key='%s.radialrange/small-curve-seen-from-far-away' % type(cv).__name__, site='svgpathtools/path.py:bezier_radialrange', what='%r from %r (distance %g): %r; 4097 witnesses span [%r, %r]' % (cv, z, dist, got, emin, emax),
+                                case={'curve': repr(cv), 'dist': dist, 'ang': ang}, expected=[emin, emax], observed=repr(got), driver='far')
+                    break
+
 
 def run(ck):
     rnd = random.Random(ck.seed)
